@@ -172,6 +172,7 @@ impl Prop for C13 {
         v.push(GenSpec::random("rects-random", tier.pick(2_000, 100_000)));
         v.push(GenSpec::random("paths", tier.pick(3_000, 300_000)));
         v.push(GenSpec::random("paths-interleaved", tier.pick(1_500, 150_000)));
+        v.push(GenSpec::random("edited-in-place", tier.pick(1_500, 100_000)));
         v
     }
     fn run_case(&self, cx: &mut Cx) {
@@ -279,11 +280,20 @@ impl Prop for C13 {
                 cx.sample(|| json!({"polygon": poly, "queries": qs.len()}));
             }
             "rects-random" => {
-                let c = |r: &mut Rng| r.range(-1_000_000, 1_000_000);
+                // usually within a million of the origin; one in four anywhere in the 32-bit range (a chip corner at -2e9)
+                let big = cx.rng.chance(1, 4);
+                let c = move |r: &mut Rng| if big { r.range(-2_100_000_000, 2_100_000_000) } else { r.range(-1_000_000, 1_000_000) };
                 let (p0, p1) = ((c(&mut cx.rng), c(&mut cx.rng)), (c(&mut cx.rng), c(&mut cx.rng)));
                 let shape = Shape::Rect(Rect { p0: pt(p0), p1: pt(p1) });
                 let corners = [p0, (p1.0, p0.1), p1, (p0.0, p1.1)];
-                let qs = probe_points(&mut cx.rng, &corners, 20);
+                let mut qs = probe_points(&mut cx.rng, &corners, 20);
+                // level with the rectangle (and above / below it) but billions of units away on the other axis: the whole 32-bit range GDSII
+                // can store, and beyond
+                for far in [2_000_000_000i64, -2_000_000_000, 4_000_000_000, -(1i64 << 40), 1i64 << 62] {
+                    qs.push((far, (p0.1 + p1.1) / 2));
+                    qs.push(((p0.0 + p1.0) / 2, far));
+                    qs.push((far, far));
+                }
                 cx.nontrivial(crate::rt::prng::strhash(&format!("{:?}{:?}", p0, p1)));
                 for q in qs {
                     cx.eval();
@@ -323,9 +333,65 @@ impl Prop for C13 {
                     }
                 }
                 qs.push((origin.0 + 100_000, origin.1));
+                for far in [4_000_000_000i64, -4_000_000_000, 1i64 << 62] {
+                    qs.push((origin.0 + far, origin.1));
+                    qs.push((origin.0, origin.1 + far));
+                    qs.push((pts[pts.len() - 1].0 + far, pts[pts.len() - 1].1));
+                }
                 cx.nontrivial(crate::rt::prng::strhash(&format!("{:?}{}", pts, w)));
                 self.check_path(cx, &pts, w, &qs);
                 cx.sample(|| json!({"path": pts, "width": w, "queries": qs.len()}));
+            }
+            "edited-in-place" => {
+                // a polygon is queried, then ONE vertex is moved in place (same buffer, same length: an editor's vertex drag) so that the shape
+                // grows beyond its old bounding box, and it is queried again: the answers are those of the polygon as it is NOW
+                let k = 4 + cx.rng.usize(5);
+                let (cx0, cy0) = (cx.rng.range(-5000, 5000), cx.rng.range(-5000, 5000));
+                // a convex polygon: points on a circle-ish fan, sorted by angle
+                let mut pts: Vec<P> = (0..k)
+                    .map(|i| {
+                        let a = (i as f64 + 0.3) * std::f64::consts::TAU / k as f64;
+                        let r = 100.0 + cx.rng.range(0, 60) as f64;
+                        (cx0 + (r * a.cos()) as i64, cy0 + (r * a.sin()) as i64)
+                    })
+                    .collect();
+                let mut shape = Polygon { points: pts.iter().map(|p| pt(*p)).collect() };
+                let warm = (cx0, cy0);
+                cx.eval();
+                let _ = guard(|| shape.contains(&pt(warm)));
+                // drag a vertex that is neither first, middle nor last outwards by a few hundred units
+                let j = 1 + cx.rng.usize(k - 2);
+                let j = if j == k / 2 { if j + 1 < k - 1 { j + 1 } else { j - 1 } } else { j };
+                let (dx, dy) = (pts[j].0 - cx0, pts[j].1 - cy0);
+                pts[j] = (pts[j].0 + 3 * dx, pts[j].1 + 3 * dy);
+                shape.points[j] = pt(pts[j]);
+                if !is_simple(&pts) {
+                    cx.count("edited_polygon_not_simple_skipped");
+                    return;
+                }
+                cx.nontrivial(crate::rt::prng::strhash(&format!("{:?}{}", pts, j)));
+                // points around the dragged vertex (inside the grown part), the centre, and far away
+                let mut qs: Vec<P> = vec![warm, (cx0 + 2 * dx, cy0 + 2 * dy), (cx0 + 3 * dx, cy0 + 3 * dy), (cx0 + 5 * dx, cy0 + 5 * dy), pts[j]];
+                for _ in 0..20 {
+                    let t = cx.rng.range(0, 400);
+                    qs.push((cx0 + dx * t / 100 + cx.rng.range(-3, 3), cy0 + dy * t / 100 + cx.rng.range(-3, 3)));
+                }
+                let sh = Shape::Polygon(shape);
+                for q in qs {
+                    cx.eval();
+                    let want = poly_contains(&pts, q);
+                    match guard(|| sh.contains(&pt(q))) {
+                        Ok(g) if g == want => cx.count("edited_polygon_answers_agree"),
+                        Ok(g) => {
+                            cx.violation(if want { "edited-in-place|inside-reported-outside" } else { "edited-in-place|outside-reported-inside" }, json!({"polygon_now": pts, "moved_vertex": j, "point": q, "contains": g, "exact": want}));
+                            return;
+                        }
+                        Err(c) => {
+                            cx.violation(&format!("edited-in-place|panic|{}", c.norm_msg()), json!({"panic": c.msg}));
+                            return;
+                        }
+                    }
+                }
             }
             "paths-interleaved" => {
                 // an answer depends on the shape and the point asked about, not on what was asked before: several paths living side by side
